@@ -51,12 +51,12 @@ def tag(ns):
 # time grows faster than linearly with the size of a harness (all assertions are decided on one
 # formula), so one length per harness beyond N = 2. QUICK lists the blocks of the quick tier; every
 # other block of ALL is thorough.
-BLOCK = {"0": [0], "1": [1], "2": [2], "z": [0, 1], "s": [0, 1, 2], "3": [3], "4": [4], "5": [5], "p": [2, 3]}
+BLOCK = {"0": [0], "1": [1], "2": [2], "z": [0, 1], "s": [0, 1, 2], "b": [0, 1, 2, 3], "3": [3], "4": [4], "5": [5], "p": [2, 3]}
 CALIBRATE = os.environ.get("C11_CALIBRATE") == "1"
 # quick-tier blocks per harness family (default "3"); measured costs (4 jobs, loaded machine) in the comments
 QUICK = {
     # null-aware comparisons: N = 3 own/opt 33-80 s, N = 4 tit 27-50 s, N <= 2 tit 2-29 s each (merged: 170 s)
-    "cmp_opti32_own": "3", "cmp_opti32_tit": "0 1 2 4", "cmp_opti32_opt": "",
+    "cmp_opti32_own": "3", "cmp_opti32_tit": "0 1 2 4", "cmp_opti32_opt": "3",
     "cmp_f64_own": "", "cmp_f64_tit": "4", "cmp_f64_opt": "3", "cmp_i32_opt": "",
     # null-aware sums: 6-27 s
     "sum_opti32_own": "3", "sum_opti32_tit": "s 4", "sum_opti32_opt": "3", "sum_opti64_tit": "3",
@@ -64,15 +64,15 @@ QUICK = {
     "plain_cmp_i32_own": "3", "plain_cmp_i32_tit": "z 2 4", "plain_cmp_i64_tit": "",
     "plain_sum_i32_own": "3", "plain_sum_i32_tit": "s 4", "plain_sum_i64_tit": "2", "plain_f64_tit": "s 3",
     "plain_nan": "2",
-    "bool_plain": "s 3", "bool_opt": "s 3",
+    "bool_plain": "b", "bool_opt": "b",
     "masked_opti32_tit_bool": "3", "masked_opti32_tit_optbool": "z 2 4", "masked_opti32_own_bool": "3",
     "masked_opti32_opt_optbool": "", "masked_i32_tit_bool": "3",
-    "perm_opti32_sum": "3", "perm_opti32_any": "p", "perm_f64_small": "p", "perm_plain_sum": "p", "perm_plain_any": "p 4",
+    "perm_opti32_sum": "3", "perm_opti32_any": "p", "perm_f64_small": "p", "perm_plain_sum": "p", "perm_plain_any": "p",
     "perm_bool": "p",
     # fold protocols: every element type with the owned vector at N = 3 and the borrowed iterator at N = 4, the option
-    # view for the two plain types (f64, i32), small lengths for Option<i32> (0, 1) and f64 (2)
+    # view for f64, i32 and Option<i32>, small lengths for Option<i32> (0, 1) and f64 (2)
     "fold_protocol_opti32_tit": "z 4", "fold_protocol_f64_tit": "2 4", "fold_protocol_i32_tit": "4", "fold_protocol_optf64_tit": "4",
-    "fold_protocol_opti32_opt": "", "fold_protocol_optf64_opt": "",
+    "fold_protocol_optf64_opt": "",
 }
 
 
@@ -81,6 +81,8 @@ class Tiers(dict):
         q = QUICK.get(name, "3").split()
         if name.startswith("perm_"):
             allb = ["2", "3", "4", "5"] if "3" in q else ["p", "4", "5"]
+        elif "b" in q:
+            allb = ["b", "4", "5"]
         elif "z" in q or (name.startswith("fold_") and "2" in q):
             allb = ["z", "2", "3", "4", "5"]
         elif any(b in q for b in "012") or name == "plain_nan":
